@@ -8,6 +8,7 @@
 -/
 import PrologVerif.Proofs.DecompileCompile
 import PrologVerif.Generated.Bootstrap
+import PrologVerif.Properties.C10Exec
 namespace PrologVerif.C10
 open PrologVerif PrologVerif.VM PrologVerif.DecompileCompile
 
